@@ -318,6 +318,12 @@ impl Archive {
 
         // Seek to part offset
         reader.seek(SeekFrom::Start(part.offset))?;
+        // Verification hook: a scheduling point between the seek and the read of one part, so that the
+        // schedule explorer can interleave readers there (no-op unless a callback is installed).
+        #[cfg(ragc_verif)]
+        if let Some(f) = VERIF_IO_POINT.get() {
+            f();
+        }
 
         // Read metadata
         let (metadata, _) = read_varint(reader)?;
@@ -461,6 +467,11 @@ impl Archive {
         Ok(())
     }
 }
+
+/// Verification hook (compiled only with `--cfg ragc_verif`): optional callback invoked between the
+/// seek and the read of a part (see read_part_data).
+#[cfg(ragc_verif)]
+pub static VERIF_IO_POINT: std::sync::OnceLock<fn()> = std::sync::OnceLock::new();
 
 /// Verification hook (compiled only with `--cfg ragc_verif`): read-only view of the per-stream
 /// sequential read cursors (part of the reader's hidden state).
